@@ -484,9 +484,27 @@ def iter_func_args(
     # accepted by that callable in the "args_name" tuple.
     args_index_kind_first = 0
 
+    # True only if omitting the first mandatory parameter accepted by that
+    # callable, which is the case when that callable is a C-based bound method
+    # descriptor encapsulating either an instance method bound to an instance of
+    # a class or a class method bound to a class. This parameter is either the
+    # first mandatory positional-only parameter *OR* the first mandatory
+    # flexible parameter of that callable.
+    is_omit_arg_first = (
+        is_omit_boundmethod_arg_first and is_func_boundmethod(func))
+
     # If that callable accepts at least one mandatory positional-only
     # parameter...
     if args_len_posonly_mandatory:
+        # If omitting the first parameter accepted by that callable (i.e., the
+        # "self" parameter implicitly passed by a bound method descriptor to its
+        # method), this parameter is the first mandatory positional-only
+        # parameter (e.g., the "self" in "def muh_method(self, arg, /): ..."). In
+        # this case, ignore this parameter by skipping past it.
+        if is_omit_arg_first:
+            args_index_kind_first += 1
+            is_omit_arg_first = False
+
         # For each mandatory positional-only parameter accepted by that
         # callable, yield a tuple describing this parameter.
         for arg_name in args_name[
@@ -531,16 +549,10 @@ def iter_func_args(
         args_index_kind_last_after = (
             args_index_kind_first + args_len_flex_mandatory)
 
-        # If...
-        if (
-            # Omitting the first mandatory flexible parameter accepted by that
-            # callable if that callable is a C-based bound method descriptor
-            # encapsulating either an instance method bound to an instance of a
-            # class or a class method bound to a class *AND*...
-            is_omit_boundmethod_arg_first and
-            # That callable is such a C-based bound method descriptor...
-            is_func_boundmethod(func)
-        ):
+        # If omitting the first parameter accepted by that callable *AND* this
+        # parameter has yet to be omitted above as a mandatory positional-only
+        # parameter, this parameter is the first mandatory flexible parameter.
+        if is_omit_arg_first:
             # print(f'Ignoring bound method {repr(func)} first argument...')
             # Increment the 0-based index of the first mandatory flexible
             # parameter accepted by this method in the "args_name" tuple to
